@@ -1,4 +1,4 @@
-import AcraModel.Envelope.SafeContainer
+import AcraModel.Envelope.SafeUnchanged
 /-!
 # C03 — any modification of a protected value is detected, never mis-decrypted
 
@@ -110,5 +110,110 @@ theorem reveal_no_panic : ∀ (c : CryptoOps) (kv : KeyView) (d : Bytes), reveal
 look like an envelope already). -/
 theorem protect_no_panic :
     ∀ (c : CryptoOps) (kv : KeyView) (k : Kind) (d rnd : Bytes), protect c kv k d rnd ≠ .panic := protect_ne_panic
+
+/-! ## B. the column scans stay inside the buffer, terminate, never panic
+
+`scan`, `processStructs`, `processBlocks` are defined by well-founded recursion on the length of the
+remaining buffer: their very definition is the termination proof (every iteration consumes at least
+one byte). What remains is that the "slice out of range" branches are unreachable.
+
+Model artefact, stated honestly: `Bytes` is a mathematical list, so it can be longer than any Go
+slice. For a buffer of `2^63` bytes or more a declared container length `≥ 2^63` passes the (unsigned)
+range check of `ExtractSerializedContainer` and becomes negative as `int`
+(see `extractContainer_bounds_needs_int_range` at the end). Go slices are shorter than `2^63` bytes,
+so the hypothesis `d.length < 2^63` below holds for every input that can exist. -/
+
+/-- **The fix in `ExtractSerializedContainer`**: on success the caller is told to advance by at least
+one byte and by no more than the data holds. -/
+theorem extractContainer_bounds (d : Bytes) (n : Int) (cont : Bytes) (hd : d.length < 2^63) :
+    extractContainer d = .ok (n, cont) → 0 < n ∧ n ≤ d.length := extractContainer_bounds' hd
+
+/-- An extracted AcraBlock is a prefix of the data, at least the 18-byte header long. -/
+theorem extractBlock_bounds (d : Bytes) (n : Nat) (b : Bytes) :
+    extractBlock d = .ok (n, b) → 18 ≤ n ∧ n ≤ d.length ∧ b = d.take n := extractBlock_bounds'
+
+/-- An extracted AcraStruct is a prefix of the data, at least the 145-byte header long (and it passes
+`ValidateAcraStructLength`). -/
+theorem extractStruct_bounds (d : Bytes) (n : Nat) (s : Bytes) :
+    extractStruct d = .ok (n, s) → 145 ≤ n ∧ n ≤ d.length ∧ s = d.take n ∧ validateStruct s = .ok () :=
+  extractStruct_bounds'
+
+/-- **`OnColumn`'s loop never panics, for ALL callback lists**: callbacks are total functions, the
+extractor never panics, and the skip length is in range, so `inBuffer[inIndex:]` is always valid. -/
+theorem scan_no_panic : ∀ (cbs : List Callback) (rest : Bytes), rest.length < 2^63 → scan cbs rest ≠ .panic :=
+  scan_ne_panic
+
+/-- `EnvelopeDetector.OnColumn` never panics. -/
+theorem onColumn_no_panic : ∀ (cbs : List Callback) (d : Bytes), d.length < 2^63 → onColumn cbs d ≠ .panic :=
+  onColumn_ne_panic
+
+/-- `ProcessAcraStructs` never panics when the per-struct handler does not (the unguarded
+`GetDataLengthFromAcraStruct` is only reached with more than 145 bytes left; a declared length that is
+non-positive or exceeds the buffer is skipped, not sliced). No length hypothesis needed. -/
+theorem processStructs_no_panic (proc : Bytes → Out Bytes) (hp : ∀ x, proc x ≠ .panic) :
+    ∀ rest, processStructs proc rest ≠ .panic := processStructs_ne_panic proc hp
+
+/-- `ProcessAcraBlocks` never panics when the per-block handler does not. -/
+theorem processBlocks_no_panic (proc : Bytes → Out Bytes) (hp : ∀ x, proc x ≠ .panic) :
+    ∀ rest, processBlocks proc rest ≠ .panic := processBlocks_ne_panic proc hp
+
+/-- `OldContainerDetectorWrapper.OnAcraStruct` / `OnAcraBlock` never panic. -/
+theorem onBare_no_panic : ∀ (cbs : List Callback) (id : UInt8) (bare : Bytes), onBare cbs id bare ≠ .panic :=
+  onBare_ne_panic
+
+/-- **The transparent column processor never panics**: `OldContainerDetectorWrapper.OnColumn`
+(container scan, then bare AcraStructs, then bare AcraBlocks) for every callback list and every
+column value. -/
+theorem onColumnCompat_no_panic :
+    ∀ (cbs : List Callback) (d : Bytes), d.length < 2^63 → onColumnCompat cbs d ≠ .panic := onColumnCompat_ne_panic
+
+/-- With the decrypt callback (which swallows every error) the scan never reports a fatal error –
+a damaged value cannot turn into a failed query. True for any callbacks that never answer `fatal`. -/
+theorem scan_never_fatal (cbs : List Callback) (hc : ∀ cb ∈ cbs, ∀ x, cb x ≠ .fatal) :
+    ∀ rest, scan cbs rest ≠ .fatal := scan_ne_fatal cbs hc
+
+theorem scan_decrypt_never_fatal (c : CryptoOps) (kv : KeyView) (rest : Bytes) :
+    scan [decryptCallback c kv] rest ≠ .fatal :=
+  scan_ne_fatal _ (by intro cb hm x; rw [List.mem_singleton.1 hm]; exact decryptCallback_ne_fatal c kv x) rest
+
+theorem onColumn_decrypt_never_fatal (c : CryptoOps) (kv : KeyView) (d : Bytes) :
+    onColumn [decryptCallback c kv] d ≠ .fatal :=
+  onColumn_ne_fatal _ (by intro cb hm x; rw [List.mem_singleton.1 hm]; exact decryptCallback_ne_fatal c kv x) d
+
+/-- … and the same for the whole compatibility wrapper: neither the container scan nor the legacy
+struct/block scans can fail with the decrypt callback. -/
+theorem onColumnCompat_decrypt_never_fatal (c : CryptoOps) (kv : KeyView) (d : Bytes) :
+    onColumnCompat [decryptCallback c kv] d ≠ .fatal :=
+  onColumnCompat_ne_fatal _ (by intro cb hm x; rw [List.mem_singleton.1 hm]; exact decryptCallback_ne_fatal c kv x) d
+
+/-! ## C. bounded output (no unbounded allocation) -/
+
+/-- The internal envelope `DeserializeEncryptedData` returns is never longer than its input. -/
+theorem deserialize_output_bound (d i : Bytes) (id : UInt8) : deserialize d = .ok (i, id) → i.length ≤ d.length :=
+  deserialize_length
+
+/-- **Law-free structural bound on `OnColumn`'s output**: if no callback ever returns more than `B`
+bytes, the output has at most `|input| · max 1 B` bytes (each step consumes ≥ 1 input byte and emits
+either that byte or one replacement). -/
+theorem scan_output_bound (cbs : List Callback) (B : Nat)
+    (hc : ∀ cb ∈ cbs, ∀ x b, cb x = .replaced b → b.length ≤ B) (rest out : Bytes) (hit : Bool) :
+    scan cbs rest = .ok out hit → out.length ≤ rest.length * max 1 B := scan_output_le cbs B hc rest out hit
+
+/-! ## D. a damaged value is handed back unchanged -/
+
+/-- If at no position the callbacks produce a replacement, the scan output is the input. -/
+theorem scan_unchanged (cbs : List Callback) (rest : Bytes)
+    (hs : ∀ i, i < rest.length → startsWith containerTag (rest.drop i) = true →
+      ∀ n cont, extractContainer (rest.drop i) = .ok (n, cont) → runCallbacks cont cbs = .skip) :
+    ∃ hit, scan cbs rest = .ok rest hit := scan_same cbs rest hs
+
+/-- **Whatever cannot be decrypted is returned byte-identical**: if `Process` fails on every suffix of
+the column value that starts with the container tag, `OnColumn` with the decrypt callback returns
+the value unchanged (and no error). -/
+theorem onColumn_damaged_unchanged (c : CryptoOps) (kv : KeyView) (rest : Bytes)
+    (hs : ∀ i, i < rest.length → startsWith containerTag (rest.drop i) = true →
+      ∀ m, process c kv (rest.drop i) ≠ .ok m) :
+    ∃ hit, onColumn [decryptCallback c kv] rest = .ok rest hit :=
+  onColumn_decrypt_same c kv rest (fun i hi hst m hm => absurd hm (hs i hi hst m))
 
 end AcraModel.Props.C03
